@@ -48,9 +48,20 @@ type mimcInst struct {
 
 type p2Perm interface {
 	Permute(in []*big.Int) ([]*big.Int, error)
+	// PermuteSpare passes the buffer as the prefix of a larger array whose tail (spare elements) holds
+	// non-zero poison; a touched tail is reported as *tailError.
+	PermuteSpare(in []*big.Int, spare int) ([]*big.Int, error)
 	Compress(l, r []byte) ([]byte, error)
 	BlockSize() int
 }
+
+// tailError: the library read-modified or wrote elements beyond len(slice) (inside the spare capacity).
+type tailError struct{ msg string }
+
+func (e *tailError) Error() string { return e.msg }
+
+// poisonVal is the value put into spare-capacity element i (non-zero, canonical in every field).
+func poisonVal(i int) *big.Int { return big.NewInt(int64(0x5A5A5A00 + i%251 + 1)) }
 
 type permLib[E any] interface {
 	Permutation([]E) error
@@ -60,12 +71,24 @@ type permLib[E any] interface {
 
 type permAd[E any, PE felt[E], P permLib[E]] struct{ p P }
 
-func (a permAd[E, PE, P]) Permute(in []*big.Int) ([]*big.Int, error) {
-	v := make([]E, len(in))
+func (a permAd[E, PE, P]) Permute(in []*big.Int) ([]*big.Int, error) { return a.PermuteSpare(in, 0) }
+
+func (a permAd[E, PE, P]) PermuteSpare(in []*big.Int, spare int) ([]*big.Int, error) {
+	back := make([]E, len(in)+spare)
 	for i := range in {
-		PE(&v[i]).SetBigInt(in[i])
+		PE(&back[i]).SetBigInt(in[i])
 	}
-	if err := a.p.Permutation(v); err != nil {
+	for i := len(in); i < len(back); i++ {
+		PE(&back[i]).SetBigInt(poisonVal(i))
+	}
+	v := back[:len(in)]
+	err := a.p.Permutation(v)
+	for i := len(in); i < len(back); i++ {
+		if PE(&back[i]).BigInt(new(big.Int)).Cmp(poisonVal(i)) != 0 {
+			return nil, &tailError{fmt.Sprintf("Permutation on a buffer of len %d (cap %d) modified element %d beyond len", len(in), len(back), i)}
+		}
+	}
+	if err != nil {
 		return nil, err
 	}
 	out := make([]*big.Int, len(v))
@@ -102,6 +125,8 @@ type p2Inst struct {
 
 type sisLib interface {
 	Hash(v []*big.Int, resLen int) ([]*big.Int, error)
+	// HashSpare passes v and res as prefixes of larger arrays whose tails hold non-zero poison.
+	HashSpare(v []*big.Int, resLen, spareIn, spareRes int) ([]*big.Int, error)
 	Key() [][]*big.Int
 	Degree() int
 	LogBound() int
@@ -115,21 +140,39 @@ type sisAd[E any, PE felt[E]] struct {
 }
 
 func (a sisAd[E, PE]) Hash(v []*big.Int, resLen int) ([]*big.Int, error) {
-	in := make([]E, len(v))
+	return a.HashSpare(v, resLen, 0, 0)
+}
+
+func (a sisAd[E, PE]) HashSpare(v []*big.Int, resLen, spareIn, spareRes int) ([]*big.Int, error) {
+	inBack := make([]E, len(v)+spareIn)
 	for i := range v {
-		PE(&in[i]).SetBigInt(v[i])
+		PE(&inBack[i]).SetBigInt(v[i])
 	}
-	res := make([]E, resLen)
-	for i := range res { // poison: Hash must overwrite, not accumulate
-		PE(&res[i]).SetBigInt(big.NewInt(0xdead + int64(i)))
+	for i := len(v); i < len(inBack); i++ {
+		PE(&inBack[i]).SetBigInt(poisonVal(i))
 	}
+	in := inBack[:len(v)]
+	resBack := make([]E, resLen+spareRes)
+	for i := range resBack { // poison: Hash must overwrite res, not accumulate, and leave the tail alone
+		PE(&resBack[i]).SetBigInt(poisonVal(i))
+	}
+	res := resBack[:resLen]
 	if err := a.hash(in, res); err != nil {
 		return nil, err
 	}
-	// the input must not be modified
-	for i := range v {
-		if PE(&in[i]).BigInt(new(big.Int)).Cmp(v[i]) != 0 {
-			return nil, fmt.Errorf("HARNESS: sis.Hash modified its input at %d", i)
+	// the input (and the elements beyond its length) must not be modified
+	for i := range inBack {
+		w := poisonVal(i)
+		if i < len(v) {
+			w = v[i]
+		}
+		if PE(&inBack[i]).BigInt(new(big.Int)).Cmp(w) != 0 {
+			return nil, &tailError{fmt.Sprintf("sis.Hash modified element %d of its input array (len %d, cap %d)", i, len(v), len(inBack))}
+		}
+	}
+	for i := resLen; i < len(resBack); i++ {
+		if PE(&resBack[i]).BigInt(new(big.Int)).Cmp(poisonVal(i)) != 0 {
+			return nil, &tailError{fmt.Sprintf("sis.Hash wrote element %d beyond len(res)=%d", i, resLen)}
 		}
 	}
 	out := make([]*big.Int, len(res))
